@@ -10,7 +10,7 @@ from automata.fa.nfa import NFA
 
 RULE = ("random pairs of valid NFAs over a common alphabet (1-5 states, epsilon edges/cycles, nondeterminism) plus pairs "
         "built to be equivalent (an NFA vs its epsilon-eliminated form, vs the NFA view of its determinisation, vs its "
-        "double reversal) and near-equivalent (one final flag flipped), and ultimately periodic 'lasso' pairs (periods 2 vs 3, a cycle vs its unrolling, one flag changed); ==, != in both argument orders compared with "
+        "double reversal) and near-equivalent (one final flag flipped), and ultimately periodic 'lasso' pairs (periods 2 vs 3, a cycle vs its unrolling, one flag changed; a guess between cycles of lengths p and q vs the single cycle of length lcm(p, q), equal or with one flag flipped; two lassos of different shapes that agree on all short words); ==, != in both argument orders compared with "
         "the proved comparator and, for ==, with the mirror model of the code's Hopcroft-Karp/union-find loop over subset states (two symbol orders and tie-breaks, both argument orders), and the sequence of union calls observed by a spy on networkx's UnionFind is compared with the mirror model run under the observed schedule; additionally == is compared with DFA equality of the determinisations. distinct = "
         "canonical pair; non-trivial = both languages non-empty and the operands are not literally identical")
 
@@ -174,14 +174,19 @@ def flip_final(rng, ndef):
 def run(ctx):
     ctx.rule = RULE
     rng = ctx.rng
-    for i in range(ctx.n(260, 5000)):
+    for i in range(ctx.n(400, 6000)):
         sigma = gen.rand_alphabet(rng, 2)
-        adef = gen.rand_nfa_def(rng, nmax=5, alphabet=sigma)
+        adef = gen.rand_nfa_def(rng, nmax=rng.choice([5, 5, 6]), alphabet=sigma)
         a = mk_nfa(adef)
         r = rng.random()
         if i % 3 == 0:
             for _ in range(4):
                 x, y, tag = gen.lasso_pair(rng, rng.choice(["a", "a", "ab"]))
+                check_pair(ctx, mk_nfa(x), mk_nfa(y), tag)
+            x, y, tag = gen.coprime_cycles_pair(rng)
+            check_pair(ctx, mk_nfa(x), mk_nfa(y), tag)
+            for _ in range(3):
+                x, y, tag = gen.prefix_agreeing_lassos(rng)
                 check_pair(ctx, mk_nfa(x), mk_nfa(y), tag)
         if i % 5 == 0:
             # (the right operands use the left operand's names: same-named state sets with other transitions)
@@ -198,7 +203,7 @@ def run(ctx):
             check_pair(ctx, SubNFA(**adef), OtherSubNFA(**b), "sibling_subclasses")
         if r < 0.4:
             check_pair(ctx, a, mk_nfa(gen.rand_nfa_def(rng, nmax=5, alphabet=sigma)), "random")
-        elif r < 0.8:
+        elif r < 0.7:
             for tag, b in variants(rng, a):
                 if len(b.states) <= 9:
                     check_pair(ctx, a, b, tag)
